@@ -28,7 +28,8 @@ def child_env(seed):
 
 def make_dataset(ctx, e2e, rng, name, i, big=False):
     system = laue.SYSTEMS[i % 9]
-    ds = WF.gen_dataset(rng, system=system, nq=int(rng.integers(2, 5)), natoms=int(rng.integers(1, 4)), lattice=bool(i % 2))
+    ds = WF.gen_dataset(rng, system=system, nq=int(rng.integers(2, 5)), natoms=int(rng.integers(1, 4)), lattice=bool(i % 2),
+                        energy_class="noncubic" if i % 4 < 2 else "bm3", nv=int(rng.integers(7, 13)))
     cfg = WF.gen_settings(rng, ds, interpolator=WF.INTERPOLATORS[i % 7] if i % 3 else "lsq_poly", nt=int(rng.integers(2, 6)), ntv=int(rng.integers(8, 21)))
     wd = e2e.workdir(name)
     WF.write_dataset(ds, cfg, wd)
@@ -162,7 +163,7 @@ def _subprocess_histories(ctx, e2e):
 
 OPS = ["construct-A", "construct-B", "read-A", "read-B", "reread-A", "reread-B", "write-A", "write-B", "construct-C", "fill-table", "read-C",
        "override-A", "override-B", "construct-D", "read-D", "write-D", "construct-D", "read-D"]
-VARIANTS = ["volume_ratio", "order", "T_MIN", "interpolator", "NT", "DT", "P_MIN"]
+VARIANTS = ["volume_ratio", "order", "T_MIN", "interpolator", "eos_order", "NT", "DT", "P_MIN"]
 
 
 def variant_settings(rng, ds, cfg, what):
@@ -181,6 +182,8 @@ def variant_settings(rng, ds, cfg, what):
                 [(m, WF.admissible_orders(m, ds.nv)[0]) for m in WF.INTERPOLATORS if m != mg["interpolator"] and WF.admissible_orders(m, ds.nv)]
         mg["interpolator"], mg["order"] = cands[int(rng.integers(0, len(cands)))]
         mg["order"] = int(mg["order"])
+    elif what == "eos_order":
+        qs["order"] = {3: 4, 4: 5, 5: 4, 2: 3}.get(int(qs["order"]), 4)
     elif what == "T_MIN":
         qs["T_MIN"] = float(qs["T_MIN"]) + float(qs["DT"]) / 2
     elif what == "NT":
@@ -201,7 +204,7 @@ def _inprocess_histories(ctx, e2e):
     import cij.util.units as cu
     import qha.settings
     from cij.util.fill import fill_cij
-    nh = ctx.pick(16, 1200)
+    nh = ctx.pick(20, 1200)
     group = ctx.pick(4, 20)               # histories sharing one pair of data sets (canonical runs are the expensive part)
     evaluation_orders = set()
 
